@@ -201,6 +201,16 @@ def compile (t : Rep) : Except Term (List Clause) :=
 /-- the encoding the reader (and `Apply`, `List`, `PartialList`) chooses for an abstract term:
     a '.'/2 chain ending in `[]` is a `list`, any other non-empty chain a `*partial` over a `list`,
     everything else a `*compound` -/
+def mkApp (f : String) (rs : RepList) : Rep :=
+  match f, rs with
+  | ".", .cons h (.cons tl .nil) =>
+    match tl with
+    | .atom "[]" => .list (.cons h .nil)
+    | .list es => .list (.cons h es)
+    | .part (.list es) t => .part (.list (.cons h es)) t
+    | other => .part (.list (.cons h .nil)) other
+  | _, _ => .compound f rs
+
 mutual
   def toRep : Term → Rep
     | .var v => .var v
@@ -208,15 +218,7 @@ mutual
     | .int i => .int i
     | .flt b => .flt b
     | .str n => .str n
-    | .app f as =>
-      match f, as with
-      | ".", .cons h (.cons tl .nil) =>
-        match toRep tl with
-        | .atom "[]" => .list (.cons (toRep h) .nil)
-        | .list es => .list (.cons (toRep h) es)
-        | .part (.list es) t => .part (.list (.cons (toRep h) es)) t
-        | other => .part (.list (.cons (toRep h) .nil)) other
-      | _, _ => .compound f (toReps as)
+    | .app f as => mkApp f (toReps as)
   def toReps : Args → RepList
     | .nil => .nil
     | .cons t ts => .cons (toRep t) (toReps ts)
